@@ -20,7 +20,7 @@ CLAIMED = {
  "C02": ("exploration",
          "bounded-exhaustive enumeration of DAG shapes x selectors x store splits, each executed on two real instances, vs. an independent reference traversal",
          "Every shape of the catalogue (all reachable edge sets over <=N blocks, link forms direct/inline/nested/list, field order, raw leaves, duplicate links), every selector of the catalogue and every one of the 4^N splits of the blocks between the two stores is run as one real two-node exchange through the real wire encoding; delivered nodes (in order), missing-block errors and the final store are compared with go-ipld-prime's own walker over the statement's loading rule. Exhaustive over the stated finite space; not a proof for larger DAGs.",
-         "Trusted: go-ipld-prime's walker as the meaning of selector traversal; the fake FIFO lossless network; default schedule only (schedules are C06/C20's subject). Two genuine defects are recorded as known findings (responder lacks root; skip window misaligned), one was repaired (fix: path-length heuristic).",
+         "Trusted: go-ipld-prime's walker as the meaning of selector traversal; the fake FIFO lossless network; the full enumeration runs under the default schedule, 11 mixed splits additionally under every schedule within deviation bound 1 (thorough 2). Two genuine defects are recorded as known findings (responder lacks root; skip window misaligned), one was repaired (fix: path-length heuristic).",
          "DESIGN.md 6 C02"),
  "C15": ("model_checking",
          "stateless deviation-bounded DFS over schedules and injected send/connect failures of the real assembler->queue->allocator pipeline under a controlled scheduler",
